@@ -55,6 +55,28 @@ def object_map():
     raise OutOfFragment("KmipEngine.__init__ no longer assigns self._object_map from a literal")
 
 
+_VERSIONS = []
+
+
+def protocol_versions():
+    """The list literal assigned to self._protocol_versions in KmipEngine.__init__."""
+    if _VERSIONS:
+        return _VERSIONS[0]
+    from . import extract
+    ex = extract.by_qualname("kmip.services.server.engine.KmipEngine.__init__")
+    for n in ast.walk(ex.node):
+        if isinstance(n, ast.Assign) and any(isinstance(t, ast.Attribute) and t.attr == '_protocol_versions'
+                                             for t in n.targets):
+            m = eval(compile(ast.Expression(n.value), '<protocol_versions>', 'eval'), ex.module.__dict__)
+            _VERSIONS.append(m)
+            return m
+    raise OutOfFragment("KmipEngine.__init__ no longer assigns self._protocol_versions from a literal")
+
+
+PER_REQUEST_FIELDS = ('_client_identity', '_protocol_version', '_attribute_policy', '_data_session',
+                      '_id_placeholder', 'is_asynchronous')
+
+
 def object_type_of(cls):
     for k, v in object_map().items():
         if v is not None and (v is cls or (isinstance(cls, type) and issubclass(cls, v))):
@@ -280,8 +302,40 @@ class DbSession(object):
         return None
 
     @model
+    def __enter__(I, args, kw):
+        return args[0]
+
+    @model
+    def __exit__(I, args, kw):
+        I.path.event('db.session.exit')
+        return False
+
+    @model
     def close(I, args, kw):
         return None
+
+
+class Lock(object):
+    """threading.RLock (assumed: mutual exclusion, re-entrant)."""
+
+    @model
+    def __enter__(I, args, kw):
+        I.path.event('lock.enter')
+        return args[0]
+
+    @model
+    def __exit__(I, args, kw):
+        I.path.event('lock.exit')
+        return False
+
+
+class SessionFactory(object):
+    """sessionmaker: calling it yields a new session usable as a context manager."""
+
+    @model
+    def __call__(I, args, kw):
+        I.path.event('db.session.new')
+        return make_session(I, 'session%d' % len(I.path.trace))
 
 
 class SqlCond(object):
@@ -312,6 +366,10 @@ def make_engine(I, label="self", version=None, identity=True):
     e.fields['_operation_policies'] = make_symbolic(I, CA.POLICIES, label + "._operation_policies")
     e.fields['_data_session'] = make_session(I)
     e.fields['_object_map'] = object_map()
+    e.fields['_protocol_versions'] = protocol_versions()
+    e.fields['_lock'] = Obj(Lock, {}, 'lock')
+    e.fields['_data_store_session_factory'] = Obj(SessionFactory, {}, 'session-factory')
+    e.meta['track_reads'] = set(PER_REQUEST_FIELDS)
     versions = [(1, 0), (1, 1), (1, 2), (1, 3), (1, 4), (2, 0)]
 
     def set_version(I2, obj, version=version):
@@ -319,6 +377,9 @@ def make_engine(I, label="self", version=None, identity=True):
         v = version if version is not None else versions[I2.path.choose(len(versions), "protocol-version")]
         obj.fields['_protocol_version'] = contents.ProtocolVersion(*v)
         obj.fields['_attribute_policy'] = server_policy.AttributePolicy(contents.ProtocolVersion(*v))
+        lc = obj.meta.setdefault('lazy_created', {})
+        lc['_protocol_version'] = obj.fields['_protocol_version']
+        lc['_attribute_policy'] = obj.fields['_attribute_policy']
     e.meta['lazy'] = {'_protocol_version': set_version, '_attribute_policy': set_version}
     user = make_symbolic(I, 'str', label + ".user")
     groups = make_symbolic(I, ('lazyopt', ('slist', 'nonempty_str')), label + ".groups")
